@@ -29,3 +29,4 @@ PY
 done
 # evidence files were rewritten by runs on a mutated tree: regenerate them on the unchanged tree afterwards
 echo "NOTE: re-run the quick checks on the unchanged tree to regenerate evidence/*.json"
+(cd /verif/harness && cargo build --release --offline >/dev/null 2>&1)
